@@ -12,14 +12,15 @@ RULE = ("real sockets, no scripted transport: Valve queries against an in-proces
         "byte-exact send/receive round trips for payload sizes 0..65507 over UDP and up to 100 000 over TCP, both families, with and "
         "without truncation by the receive buffer; refused TCP connections; a TCP peer that writes nothing / 1 / 40 / 1500 bytes and then "
         "closes (everything written is delivered) or stalls with the connection open (the read fails within the read timeout, however "
-        "much of a reply had arrived). Non-trivial = every case.")
+        "much of a reply had arrived); the Eco query through the HTTP client against a peer that is mute / stalls in the head / in the body, "
+        "read timeout 150 ms with write and connect timeouts of 2 s (one read timeout must bound the wait). Non-trivial = every case.")
 ASSUMPTIONS = ["scheduling slack of 250 ms + 60 ms per timed-out step is allowed on top of the bound",
                "that SO_RCVTIMEO / connect_timeout are honoured by the OS is measured here, not proved"]
 TRUSTED = ["Lean theorems C12_valve_blocking_bound, C12_gs2_blocking_bound, C12_minecraft_java_blocking_bound / _silent_server give the number of "
            "blocking steps that can time out; the harness measures wall time"]
 HAS_PROOF = True
 
-TIMED = ("realudp", "realgs2", "realjava", "realtcp")  # entries whose case line carries the timeout in its 4th word
+TIMED = ("realudp", "realgs2", "realjava", "realtcp", "realhttp")  # entries whose case line carries the timeout in its 4th word
 SLACK_MS = 250
 PER_STEP_MS = 60
 
@@ -90,6 +91,13 @@ def run(rep, tier, seed, replay=None):
                 cid = f"x{k}"
                 cases.append(f"{cid} realrefused {fam} {ms}")
                 meta[cid] = ("refused", ms, 0, 0)
+            # the HTTP client (Eco): read timeout much shorter than the write / connect timeouts; a peer that accepts and
+            # stays mute, stalls in the response head or in the body must cost one READ timeout, not more
+            for mode in ("mute", "head", "body", "ok", "refused"):
+                k += 1
+                cid = f"h{k}"
+                cases.append(f"{cid} realhttp {fam} 150 2000 {mode}")
+                meta[cid] = ("http", 150, 0, 0)
             # a TCP peer that answers nothing / part of a reply / a whole reply and then closes, or stalls with the
             # connection open: the read must end at the close or within the read timeout
             for ms in ((80,) if tier == "quick" else (80, 200)):
@@ -121,7 +129,15 @@ def run(rep, tier, seed, replay=None):
                 rep.oracle_failures.append(("timeout-not-bounding:" + c.split(" ")[1], f"took {elapsed} ms; {blocked} blocking step(s) may time out at {ms} ms each: bound {bound} ms", c, i))
             if blocked > 0 and elapsed < (blocked * ms) * 0.5 and c.split(" ")[1] in TIMED:
                 rep.count("returned-early")
-            if c.split(" ")[1] in TIMED and blocked > 0 and not ip[0].startswith("ERR PacketReceive") and not ip[0].startswith("OK"):
+            if c.split(" ")[1] == "realhttp":
+                # the class of the error: no answer at all = the request/response exchange failed (send/receive class, the
+                # client library cannot tell which half); a body that stops = receive class; nothing listening = connect class
+                mode, got = c.split(" ")[5], (ip[3] if len(ip) > 3 else "")
+                want = {"mute": ("ERR PacketSend", "ERR PacketReceive"), "head": ("ERR PacketSend", "ERR PacketReceive"),
+                        "body": ("ERR PacketReceive",), "refused": ("ERR SocketConnect",), "ok": ("OK", "ERR ProtocolFormat")}[mode]  # the stub document is not a full Eco front page
+                if got not in want:
+                    rep.oracle_failures.append((f"http-error-class:{mode}", f"{mode}: got {got}, expected one of {want}", c, i))
+            elif c.split(" ")[1] in TIMED and blocked > 0 and not ip[0].startswith("ERR PacketReceive") and not ip[0].startswith("OK"):
                 rep.oracle_failures.append(("silence-wrong-error", f"silent server gave {ip[0][:80]}", c, i))
         if c.split(" ")[1] == "realecho" and not i.endswith(",T") :
             rep.oracle_failures.append(("transport-modified-bytes", f"payload not delivered unmodified: {i}", c, i))
